@@ -143,7 +143,7 @@ def dyn_fixed(name, mode, nops, seed, kmax=23, vmax=3, idxl=3, erase_p=0.3, tier
         if r.random() < erase_p: ops += [1, r.randint(0, kmax), 0]
         else: ops += [0, r.randint(0, kmax), r.randint(0, vmax)]
     j = dyn(name, mode, 0, nops, kmax=kmax, vmax=vmax, idxl=idxl, tiers=tiers, timeout=timeout, mem_gb=mem_gb)
-    j['defs'].update(FIXED_OPS=','.join(str(x) for x in ops), VERIF_VEC_CAP=40, VERIF_VECVEC_CAP=36, VERIF_SET_CAP=kmax + 2)
+    j['defs'].update(FIXED_OPS=','.join(str(x) for x in ops), VERIF_VEC_CAP=40, VERIF_VECVEC_CAP=36, VERIF_SET_CAP=kmax + 2, INV_EACH_STEP=1)     # C15: invariants after every operation
     j['profile_unwind'] = 200; j['profile_samples'] = 4; j['refine_rounds'] = 14; j['cbmc_extra'] = ['--max-field-sensitivity-array-size', '128']     # the history is concrete: few profile samples suffice
     j['bounds'] = (['find/count/lower_bound', 'begin()..end() traversal', 'LSM invariants', 'size/empty/range', 'traversal from lower_bound'][mode] +
                    ' after ONE concrete history of %d insert_or_assign/erase operations over keys 0..%d (python random.Random(%d), erase probability %.1f; listed in the job definition), '
@@ -172,6 +172,17 @@ def cpgm(name, kt, ctype, n, epslo=1, ephi=3, spread=200, sentinel=False, tiers=
                 cbmc_extra=['--no-array-field-sensitivity'],
                 bounds='pgm_index_%s_{create,search,destroy}: exactly %d sorted keys = symbolic base (anywhere in the %s range) + offsets 0..%d, run-time epsilon '
                        'symbolic in %d..%d, queries base+0..%d%s' % (ctype, n, kt, spread, epslo, ephi, spread, '; reserved value allowed in the data (NULL path)' if sentinel else ''))
+
+
+def cpgm_fixed(name, kt, ctype, data, eps, tiers=Q, timeout=1200):
+    n = len(data)
+    j = cpgm(name, kt, ctype, n, epslo=eps, ephi=eps, tiers=tiers, timeout=timeout)
+    j['defs'].update(FIXED_DATA=','.join('%dULL' % x for x in data), VERIF_VEC_CAP=n + 8)
+    j['narrow'] = 0; j['profile_unwind'] = 2 * n + 60; j['profile_samples'] = 4; j['refine_rounds'] = 14
+    j['cbmc_extra'] = ['--max-field-sensitivity-array-size', str(n + 16)]
+    j['bounds'] = ('pgm_index_%s_{create,search,destroy} on ONE concrete sorted data set of %d keys (listed in the job definition), run-time epsilon = %d, EVERY non-reserved query key (symbolic); '
+                   'decides the property for this data set only' % (ctype, n, eps))
+    return j
 
 
 def dynstep(name, mode, s1, s2, s3, kmax=4, vmax=1, idxl=10, eps=1, epsrec=1, tiers=Q, timeout=1200, mem_gb=14):
@@ -391,12 +402,14 @@ PROPS = {
                 explanation='Data whose last key is the reserved value is rejected with std::invalid_argument, and only such data (e2e jobs with the sentinel allowed); add_point with a non-increasing key throws logic_error.'),
 }
 # fixed-data jobs: one concrete data set, every query symbolic
+# (C interface on fixed data, cpgm_fixed(...): out of memory at 14 GB for n = 24 and n = 32 although the same data sets cost 10-25 s through PGMIndex directly; not debugged in the time left - not jobs)
 JOBS['C11'] += [mapped_fixed('mapped_fixed_u32_n40_dups', 'uint32_t', dup_data('uint32_t', 40, 3))]
 JOBS['C14'] += [md_fixed('md_fixed_contains_n16_s1', 0, 16, 1)]
 # (range() on a fixed point set with a symbolic box: out of memory at 14 GB even for 5 points - the symbolic box drives every bigmin step; not a job)
 JOBS['C05'] += [dyn_fixed('dyn_fixed_q_h24_s1', 0, 24, 1)]
 JOBS['C06'] += [dyn_fixed('dyn_fixed_it_h24_s1', 1, 24, 1), dyn_fixed('dyn_fixed_rng_h24_s1', 3, 24, 1)]     # traversal from a SYMBOLIC lower_bound on this history: no verdict in 1200 s - not a job
-JOBS['C15'] += [dyn_fixed('dyn_fixed_inv_h24_s1', 2, 24, 1)]
+JOBS['C15'] += [dyn_fixed('dyn_fixed_inv_h24_s1', 2, 24, 1), dyn_fixed('dyn_fixed_inv_h24_s1_i2', 2, 24, 1, idxl=2), dyn_fixed('dyn_fixed_inv_h32_s2_i2', 2, 32, 2, idxl=2, erase_p=0.15)]
+JOBS['C05'] += [dyn_fixed('dyn_fixed_q_h24_s1_i2', 0, 24, 1, idxl=2)]
 # probes, not claimed: Elias-Fano / Compressed on fixed data.  The symbolic run is cheap while the loop bounds are small (9 s, 1.2 GB) but the select-support
 # construction loops (4096-entry blocks) must be unwound in full even on concrete data: 11.9 GB and out of memory at the 14 GB cap during bound refinement.
 EF_FIXED_PROBE = [sdsl_fixed('ef_fixed_u32_n9', 'eliasfano.cpp', 'u_eliasfano', 'uint32_t', fixed_data('uint32_t', 9, 2, 'clustered')),
@@ -406,6 +419,8 @@ EF_FIXED_PROBE = [sdsl_fixed('ef_fixed_u32_n9', 'eliasfano.cpp', 'u_eliasfano', 
 BUCKET_SEGSETS = {2: (2, 'clustered', 1), 3: (4, 'uniform', 1), 4: (9, 'clustered', 2), 5: (15, 'clustered', 3), 7: (24, 'clustered', 3), 8: (32, 'clustered', 3), 9: (34, 'clustered', 1)}
 JOBS['C09'] += [bucketing_fixed('bucket_fixed_u32_dyn_segs%d' % s, 'uint32_t', fixed_data('uint32_t', n, seed, shape), 4 if s < 6 else 6, 0, tiers=Q if s in (2, 4, 8) else T)
                 for s, (n, shape, seed) in sorted(BUCKET_SEGSETS.items())]
+JOBS['C09'] += [bucketing_fixed('bucket_fixed_u64_dyn_uniform_n24_t4', 'uint64_t', fixed_data('uint64_t', 24, 7, 'uniform'), 4, 0),     # 64-bit keys over the whole range: i * step approaches 2^64 in the last bucket
+                bucketing_fixed('bucket_fixed_u64_w32_uniform_n24_t6', 'uint64_t', fixed_data('uint64_t', 24, 8, 'uniform'), 6, 32, tiers=T)]
 JOBS['C09'] += [bucketing_fixed('bucket_fixed_u8_dyn_n2_t4', 'uint8_t', [192, 193], 4, 0, tiers=T),     # the input of seeded change s08_c09 (kept as a regression input)
                 bucketing_fixed('bucket_fixed_u32_dyn_n24_t6', 'uint32_t', fixed_data('uint32_t', 24, 6, 'clustered'), 6, 0),
                 bucketing_fixed('bucket_fixed_u32_w32_n40_t16', 'uint32_t', fixed_data('uint32_t', 40, 8, 'steps'), 16, 32, tiers=T),
